@@ -36,10 +36,14 @@ def can_tight(a, b):
     return False
 
 
+DIMS = ('eol', 'blank', 'gap', 'indent', 'parens', 'bom', 'ff', 'trailing', 'final')
+
+
 class Layout:
-    def __init__(self, cs, plain=False):
+    def __init__(self, cs, plain=False, dims=None):
         self.cs = cs
         self.plain = plain or cs is None
+        self.dims = set(dims) if dims is not None else set(DIMS)   # enabled layout dimensions (C08 sweeps them one by one)
 
     @staticmethod
     def base():
@@ -71,6 +75,7 @@ class _R:
         self.eol_default = '\n'
         self.keep_pairs = {}
         self.default_eol = None
+        self.dims = lay.dims if not lay.plain else set()
 
     def w(self, s):
         if s:
@@ -78,7 +83,7 @@ class _R:
             self.pos += len(s.encode('utf-8'))
 
     def eol(self):
-        if self.plain:
+        if self.plain or 'eol' not in self.dims:
             return '\n'
         cs = self.cs
         k = cs.choice(8)
@@ -91,7 +96,7 @@ class _R:
 
     def blank_lines(self, indent):
         """blank / comment-only lines before a logical line"""
-        if self.plain:
+        if self.plain or 'blank' not in self.dims:
             return
         cs = self.cs
         while cs.bool(28):
@@ -110,20 +115,18 @@ class _R:
     def token_text(self, t):
         s = t.s
         if NL in s:
-            if self.plain:
+            if self.plain or 'eol' not in self.dims:
                 return s.replace(NL, '\n')
-            parts = s.split(NL)
-            out = parts[0]
-            for p in parts[1:]:
-                e = self.eol()
-                self.feats.add('eol_in_string')
-                out += e + p
-            return out
+            # one line-break spelling per token: independent choices could put a CR directly before an LF and
+            # silently turn two line breaks into one CRLF
+            e = self.eol()
+            self.feats.add('eol_in_string')
+            return s.replace(NL, e)
         return s
 
     def gap(self, a, b, depth, indent):
         """separator between tokens a and b"""
-        if self.plain:
+        if self.plain or 'gap' not in self.dims:
             return ' '
         cs = self.cs
         k = cs.choice(16)
@@ -160,7 +163,7 @@ class _R:
         cs = self.cs
         self.blank_lines(indent)
         lead = indent
-        if not self.plain and cs.bool(6):
+        if not self.plain and 'ff' in self.dims and cs.bool(6):
             lead = '\x0c' + indent
             self.feats.add('form_feed')
         self.w(lead)
@@ -176,7 +179,7 @@ class _R:
             if t.pair is not None:
                 keep = self.keep_pairs.get(t.pair)
                 if keep is None:
-                    keep = (not self.plain) and cs.bool(128)
+                    keep = (not self.plain) and 'parens' in self.dims and cs.bool(128)
                     self.keep_pairs[t.pair] = keep
                     if keep:
                         self.feats.add('redundant_parens')
@@ -195,7 +198,7 @@ class _R:
                 depth -= 1
             prev = t
         # end of the logical line
-        if not self.plain:
+        if not self.plain and 'trailing' in self.dims:
             k = cs.choice(10)
             if k == 0:
                 self.w(cs.pick([' ', '  ', '\t']))
@@ -217,7 +220,7 @@ class _R:
                 m = it[1]
                 self.marks.setdefault((m.kind, m.id), [None, None])[1 if m.end else 0] = self.last_end
             else:
-                if self.plain:
+                if self.plain or 'indent' not in self.dims:
                     extra = '    '
                 else:
                     has_space = ' ' in indent
@@ -239,14 +242,14 @@ class _R:
 def render(items, layout=None):
     lay = layout or Layout.base()
     r = _R(lay)
-    if not r.plain and r.cs.bool(16):
+    if not r.plain and 'bom' in r.dims and r.cs.bool(16 if len(r.dims) > 1 else 200):
         r.w('\ufeff')
         r.feats.add('bom')
     state = {'need_eol': False}
     r.items(items, '', state)
     # last line terminator (optional) and trailing blank / comment lines
-    if r.plain:
-        r.w('\n')
+    if r.plain or 'final' not in r.dims:
+        r.w(r.eol() if not r.plain else '\n')
     else:
         cs = r.cs
         if cs.bool(200):
